@@ -118,10 +118,53 @@ def load_known() -> Dict[str, Any]:
         return json.load(f)
 
 
-def run_rules(prop: str, repo: Repo, tier: str) -> Ctx:
+class DependCtx(RenamedCtx):
+    """Re-emits selected rules of a foundation property under `<prop>.X<nn>.<Rn>`; drops the others."""
+
+    def __init__(self, ctx: Ctx, prop: str, dep: str, rules):
+        super().__init__(ctx, {})
+        self._prop, self._dep, self._rules = prop, dep, set(rules)
+
+    def _rid(self, rid):
+        head, _, rest = rid.partition(".")
+        if head == self._dep and rest.split(".")[0] in self._rules:
+            return f"{self._prop}.X{self._dep[1:]}.{rest}"
+        return None
+
+    def rule(self, rid, desc):
+        r = self._rid(rid)
+        if r:
+            self._ctx.rule(r, f"[necessary clause of {self._dep}] " + desc)
+
+    def ob(self, rule, instance, ok, where="", msg="", path=None):
+        r = self._rid(rule)
+        if r:
+            self._ctx.ob(r, instance, ok, where, msg, path)
+
+    def floor(self, rule, what, count, minimum):
+        if count < minimum:
+            raise AnalysisError(f"{rule} (run for {self._prop}): found {count} {what}, expected at least {minimum}")
+
+    def note(self, msg):
+        pass
+
+    def assume(self, msg):
+        pass
+
+    def __setattr__(self, name, value):
+        object.__setattr__(self, name, value)
+
+
+def run_rules(prop: str, repo: Repo, tier: str, with_deps: bool = True) -> Ctx:
     mod = importlib.import_module(f"hipposa.rules.{prop.lower()}")
     ctx = Ctx(prop, repo, tier)
     mod.run(ctx)
+    if with_deps:
+        from .depends import DEPENDS
+        for dep, (rules, why) in DEPENDS.get(prop, {}).items():
+            dmod = importlib.import_module(f"hipposa.rules.{dep.lower()}")
+            dmod.run(DependCtx(ctx, prop, dep, rules))
+            ctx.assume(f"depends on {dep} {'/'.join(rules)}: {why}")
     if not ctx.obligations:
         raise AnalysisError(f"{prop}: no obligations generated (vacuous)")
     return ctx
@@ -168,6 +211,12 @@ def main(argv=None):
 
     known = load_known()
     known_keys = {k["key"]: k for k in known.get("known", []) if k.get("property") == prop}
+    # a known finding of a foundation property is the same finding when re-run as a dependency clause
+    import re as _re
+    for k in known.get("known", []):
+        m = _re.match(r"(C\d+)\.(.*)", k["key"])
+        if m and m.group(1) != prop:
+            known_keys.setdefault(f"{prop}.X{m.group(1)[1:]}.{m.group(2)}", k)
     failing = [o for o in ctx.obligations if not o.ok]
     if args.replay:
         with open(args.replay) as f:
